@@ -139,6 +139,8 @@ def index_labels(idx):
         return [tuple(nl(y) for y in row) for row in v]
     if v.dtype.kind == 'M':
         return ['M:' + s for s in v.astype(str).tolist()]
+    if v.dtype.kind == 'O':
+        return [nl(x) for x in v]
     return [(type(x).__name__, x) for x in v.tolist()]
 
 
@@ -979,7 +981,7 @@ def _frame_cases_iloc(tier):
     for kinds in mixes:
         m = len(kinds)
         if tier == 'quick':
-            rows_opts = (3,) if m == 4 else ((0, 1, 3) if m == 1 else (0, 4) if m == 2 else (1, 2))
+            rows_opts = (3,) if m == 4 else ((0, 1, 3) if m == 1 else (0, 4) if m == 2 else (1, 2) if kinds == 'ifU' else (2,))
         else:
             rows_opts = (0, 1, 2, 3, 4)
         for rows in rows_opts:
